@@ -73,7 +73,7 @@ class Ctx:
             self.samples.append(obj)
 
     # -- violations -------------------------------------------------------
-    def violation(self, key, **info):
+    def violation(self, key, /, **info):
         '''key: structured discriminator (call site / input class) used for
         known-finding matching; info: observed / expected / detail.'''
         self.violation_count += 1
@@ -119,7 +119,7 @@ def execute(mod, case, ctx, index=None):
             if line.startswith('File ') and 'static_frame' in line:
                 site = line.split('static_frame')[-1].split(',')[0].strip('/"')
                 break
-        ctx.violation(f'unexpected-exception|{type(e).__name__}|{site}', traceback=tb)
+        ctx.violation(f'unexpected-exception|{type(e).__name__}|{site}', traceback=tb[-1400:])
 
 
 def _worker(args):
